@@ -291,4 +291,3 @@ func runC11(tier, scratch, replay string, nworkers int) *merged {
 	wg2.Wait()
 	return m
 }
-
